@@ -121,8 +121,21 @@ func runBeginMatch(c *Ctx) {
 			}
 			return false
 		}
+		// (mux receiver) the output file is cut to the announced size before its state is registered: a longer file
+		// left from an earlier transfer must not keep its tail
+		trunc := &PassSpec{Vias: []Via{{Call: func(g *FuncInfo, call *ast.CallExpr) (string, bool) {
+			if calleeIs(g.Info(), call, "os", "File.Truncate") && len(call.Args) == 1 && strings.Contains(types.ExprString(call.Args[0]), begName+".FileSize") {
+				return "sized", true
+			}
+			return "", false
+		}}}}
 		n := 0
 		check := func(r NodeRef, pos token.Pos, what string) {
+			if what == "state-registration" && f.Lit != nil {
+				n++
+				c.Check(trunc.Passed(f, r, "sized"), fmt.Sprintf("begin/%s#%d/sized", f.Name, n), pos, "the data file is truncated/extended to FileBegin.FileSize (error checked) before its state is registered",
+					"receive state is registered without the output file having been resized to the announced size: a longer file left from an earlier run keeps its tail, and both sides still report success")
+			}
 			n++
 			key := fmt.Sprintf("begin/%s#%d/%s", f.Name, n, what)
 			v := t.valid.Passed(f, r, "v:"+begName+".RelPath")
